@@ -216,6 +216,35 @@ func (s *brainWatchStream) Send(r *proto.WatchResponse) error {
 	return nil
 }
 
+// recWatchStream records what a native watch delivers; while `hold` is open-ended (non-nil and not closed)
+// Send blocks: a client that does not read its stream
+type recWatchStream struct {
+	fakeStream
+	hold    chan struct{}
+	maxRev  uint64 // highest event revision seen (atomic)
+	batches int64
+}
+
+func (s *recWatchStream) Send(r *proto.WatchResponse) error {
+	if s.hold != nil {
+		select {
+		case <-s.hold:
+		case <-s.ctx.Done():
+			return s.ctx.Err()
+		}
+	}
+	atomic.AddInt64(&s.batches, 1)
+	for _, e := range r.Events {
+		for {
+			old := atomic.LoadUint64(&s.maxRev)
+			if e.Revision <= old || atomic.CompareAndSwapUint64(&s.maxRev, old, e.Revision) {
+				break
+			}
+		}
+	}
+	return nil
+}
+
 type brainRangeStream struct {
 	fakeStream
 	mu     sync.Mutex
@@ -280,6 +309,10 @@ type genReq struct {
 	Run   func(n *node) (isErr bool)
 	Extra int64 // revisions the scenario itself allocates on top of the request (none so far)
 	List  *listObs
+	// Verdict, when set by Run, says why the node no longer serves (reported as a wedge)
+	Verdict *string
+	// ExtraFn: revisions the scenario allocated itself, known only after it ran
+	ExtraFn func() int64
 }
 
 // what a list-shaped response contained
@@ -815,6 +848,82 @@ func corpusDynamic() []func(cur uint64) genReq {
 	} {
 		out = append(out, etcdWatchFrom([]byte("/registry/"), []byte("/registry0"), mk, "corpus.etcd.Watch.rangestream", "seed C20-5"))
 	}
+	// seed C20-8: a watch whose client stops reading while the node keeps committing writes to its prefix.
+	// After resultChanLength (100) + watchBuffer (10000) undelivered batches the hub must drop that subscriber
+	// and go on: a NEW watch must be accepted and must deliver the next write.
+	if os.Getenv("C20_SLOW_WATCH") != "0" {
+		out = append(out, func(cur uint64) genReq {
+			verdict := new(string)
+			var creates int64
+			k := []byte("/registry/slow/")
+			return genReq{Kind: "corpus.brain.Watch.slowclient", Coq: lib.App("BWatch", lib.Bytes(k), "0"),
+				JSON:    js("api", "brain.Watch", "key", k, "scenario", "the client does not read its stream; 10300 creates under the prefix, one event batch each; then a new watch on the prefix and one more create", "corpus", "seed C20-8"),
+				Verdict: verdict, ExtraFn: func() int64 { return atomic.LoadInt64(&creates) },
+				Run: func(n *node) bool {
+					c, cancel := context.WithCancel(ctx)
+					defer cancel()
+					hold := make(chan struct{})
+					slow := &recWatchStream{fakeStream: fakeStream{c}, hold: hold}
+					slowDone := make(chan error, 1)
+					go func() {
+						defer func() { _ = recover() }()
+						slowDone <- n.bs.Watch(&proto.WatchRequest{Key: k}, slow)
+					}()
+					time.Sleep(20 * time.Millisecond)
+					create := func(key string) uint64 {
+						atomic.AddInt64(&creates, 1)
+						cr, err := n.bs.Create(ctx, &proto.CreateRequest{Key: []byte(key), Value: []byte("v")})
+						if err != nil || cr == nil || cr.Header == nil {
+							return 0
+						}
+						// one event batch per write: wait until it has been sequenced
+						for t0 := time.Now(); n.b.GetCurrentRevision() < cr.Header.Revision && time.Since(t0) < 2*time.Second; {
+							time.Sleep(20 * time.Microsecond)
+						}
+						return cr.Header.Revision
+					}
+					for i := 0; i < 10300; i++ {
+						if create(fmt.Sprintf("/registry/slow/k%05d", i)) == 0 {
+							*verdict = fmt.Sprintf("create %d under /registry/slow/ failed while a slow watch was open", i)
+							break
+						}
+					}
+					// a new watch must be answered and must see the next write
+					c2, cancel2 := context.WithCancel(ctx)
+					fresh := &recWatchStream{fakeStream: fakeStream{c2}}
+					freshDone := make(chan struct{})
+					go func() {
+						defer close(freshDone)
+						defer func() { _ = recover() }()
+						_ = n.bs.Watch(&proto.WatchRequest{Key: k}, fresh)
+					}()
+					time.Sleep(30 * time.Millisecond)
+					rev := create("/registry/slow/after")
+					if *verdict == "" && (rev == 0 || !lib.WaitUntil(3*time.Second, func() bool { return atomic.LoadUint64(&fresh.maxRev) >= rev })) {
+						*verdict = fmt.Sprintf("WEDGED: after a client stopped reading its watch for 10300 writes, a new watch on %s did not receive the next write (revision %d) within 3s: the watcher hub no longer delivers", k, rev)
+					}
+					cancel2()
+					select {
+					case <-freshDone:
+					case <-time.After(3 * time.Second):
+						if *verdict == "" {
+							*verdict = "WEDGED: the new watch's handler does not return after its context was cancelled (blocked in the watcher hub)"
+						}
+					}
+					close(hold)
+					cancel()
+					select {
+					case err := <-slowDone:
+						return err != nil
+					case <-time.After(3 * time.Second):
+						if *verdict == "" {
+							*verdict = "WEDGED: the slow watch's handler does not return after its client resumed and cancelled"
+						}
+						return true
+					}
+				}}
+		})
+	}
 	return out
 }
 
@@ -860,7 +969,30 @@ func childReq(engine string, seed uint64, count int, logPath, scratch string) {
 	ctx := context.Background()
 	probeNo := 0
 	// returns the probe's revision, health and progress
+	// a long-lived native watch on the probe keys: every probe's create must reach it (watch liveness)
+	var sentinel *recWatchStream
+	var sentinelDone chan struct{}
+	sentinelStarts := 0
+	startSentinel := func() {
+		sentinelStarts++
+		sentinel = &recWatchStream{fakeStream: fakeStream{ctx}}
+		sentinelDone = make(chan struct{})
+		st, dn := sentinel, sentinelDone
+		go func() {
+			defer close(dn)
+			defer func() { _ = recover() }()
+			_ = n.bs.Watch(&proto.WatchRequest{Key: []byte("/registry/probe/")}, st)
+		}()
+		time.Sleep(20 * time.Millisecond)
+	}
+	startSentinel()
+	watchNote := ""
 	probe := func() (uint64, bool, bool) {
+		select {
+		case <-sentinelDone: // the hub closed it (or the handler failed): a new one must be accepted
+			startSentinel()
+		default:
+		}
 		probeNo++
 		key := []byte(fmt.Sprintf("/registry/probe/%06d", probeNo))
 		val := []byte(fmt.Sprintf("v%d", probeNo))
@@ -886,6 +1018,12 @@ func childReq(engine string, seed uint64, count int, logPath, scratch string) {
 			ok := err == nil && gr != nil && gr.Kv != nil && string(gr.Kv.Value) == string(val) && gr.Kv.Revision == rev
 			er, err := n.es.Range(ctx, &etcdserverpb.RangeRequest{Key: key})
 			ok = ok && err == nil && er != nil && len(er.Kvs) == 1 && string(er.Kvs[0].Value) == string(val)
+			// watch liveness: the sentinel watch receives this create
+			st := sentinel
+			if !lib.WaitUntil(3*time.Second, func() bool { return atomic.LoadUint64(&st.maxRev) >= rev }) {
+				watchNote = fmt.Sprintf("watch liveness: the open watch on /registry/probe/ did not receive the create at revision %d within 3s (last event it saw: %d, watch restarted %d times)", rev, atomic.LoadUint64(&st.maxRev), sentinelStarts-1)
+				ok = false
+			}
 			ch <- res{rev, ok, prog}
 		}()
 		select {
@@ -956,11 +1094,24 @@ func childReq(engine string, seed uint64, count int, logPath, scratch string) {
 			if strings.HasPrefix(o, "OPanic:") {
 				outcome, note = "OPanic", o[7:]
 			}
-		case <-time.After(10 * time.Second):
+		case <-time.After(40 * time.Second):
 			outcome = "OWedge"
-			note = "handler did not return within 10s"
+			note = "handler did not return within 40s"
 		}
+		if g.Verdict != nil && *g.Verdict != "" && (outcome == "OResp" || outcome == "OErr") {
+			outcome, note = "OWedge", *g.Verdict
+		}
+		if g.ExtraFn != nil {
+			g.Extra = g.ExtraFn()
+		}
+		watchNote = ""
 		rev, health, prog := probe()
+		if watchNote != "" {
+			if note != "" {
+				note += "; "
+			}
+			note += watchNote
+		}
 		alloc := int64(rev) - int64(last) - 1 - g.Extra
 		if rev == 0 {
 			alloc = 0
@@ -1431,16 +1582,39 @@ func main() {
 
 	// ---- (c) requests, one child per engine
 	exe, _ := os.Executable()
-	for ei, eng := range []string{lib.EngMem, lib.EngWrapMem} {
+	// the request children (one per engine) run side by side
+	type childRun struct {
+		runErr   error
+		timedOut bool
+		stderr   strings.Builder
+	}
+	engines := []string{lib.EngMem, lib.EngWrapMem}
+	runs := make([]*childRun, len(engines))
+	var wgc sync.WaitGroup
+	for ei, eng := range engines {
+		runs[ei] = &childRun{}
+		wgc.Add(1)
+		go func(ei int, eng string) {
+			defer wgc.Done()
+			ctx, cancel := context.WithTimeout(context.Background(), time.Duration(150+nReq/5)*time.Second)
+			defer cancel()
+			slow := "0"
+			if eng == lib.EngMem || args.Tier == "thorough" {
+				slow = "1" // the slow-client scenario (10300 writes): one engine in the quick tier
+			}
+			cmd := exec.CommandContext(ctx, exe, "-child", "req", "-engine", eng, "-count", fmt.Sprint(nReq/2), "-out", filepath.Join(work, "req_"+eng+".log"),
+				"-seed", fmt.Sprint(args.Seed*7919+uint64(ei)), "-scratch", work)
+			cmd.Env = append(os.Environ(), "C20_SLOW_WATCH="+slow)
+			cmd.Stderr = &tailWriter{sb: &runs[ei].stderr}
+			runs[ei].runErr = cmd.Run()
+			runs[ei].timedOut = ctx.Err() != nil
+		}(ei, eng)
+	}
+	wgc.Wait()
+	for ei, eng := range engines {
 		logPath := filepath.Join(work, "req_"+eng+".log")
-		ctx, cancel := context.WithTimeout(context.Background(), time.Duration(120+nReq/5)*time.Second)
-		cmd := exec.CommandContext(ctx, exe, "-child", "req", "-engine", eng, "-count", fmt.Sprint(nReq/2), "-out", logPath,
-			"-seed", fmt.Sprint(args.Seed*7919+uint64(ei)), "-scratch", work)
-		var stderr strings.Builder
-		cmd.Stderr = &tailWriter{sb: &stderr}
-		runErr := cmd.Run()
-		timedOut := ctx.Err() != nil
-		cancel()
+		runErr, timedOut := runs[ei].runErr, runs[ei].timedOut
+		stderr := &runs[ei].stderr
 		lines := readLog(logPath)
 		starts := map[int]logLine{}
 		var order []int
